@@ -12,6 +12,7 @@ import DK.Driver.History
 import DK.Driver.Validate
 import DK.Driver.Projection
 import DK.Driver.Hess2
+import DK.Driver.FnNd
 /-! Line driver: one JSON operation per input line, one JSON answer per output line. -/
 namespace DK.Driver
 open Lean
@@ -25,6 +26,7 @@ def handle (line : String) : String :=
       if op = "leaf.cons" then leafConsOp j
       else if op.startsWith "leaf." then leafOp op j
       else if op.startsWith "tree." then treeOp op j
+      else if op.startsWith "fnnd." then fnndOp op j
       else if op.startsWith "fn." then fnOp op j
       else if op = "kern" then kernOp j
       else if op.startsWith "loader." then loaderOp op j
